@@ -328,7 +328,7 @@ func init() {
 					if prefixOfSibling || rng.Intn(2) == 0 {
 						add(c19Edit{Kind: "rename-input", Callable: cb.name, Param: in.Name, NewName: fmt.Sprintf("fresh_in_%d", rng.Intn(1000)), Fresh: true})
 					}
-					if rng.Intn(3) == 0 && p.Stage(cb.name) != nil {
+					if (isSkel || rng.Intn(3) == 0) && p.Stage(cb.name) != nil {
 						// the tool documents remove-input for stages
 						add(c19Edit{Kind: "remove-input", Callable: cb.name, Param: in.Name})
 					}
